@@ -40,13 +40,13 @@ theorem cypherEquals_tri : ∀ (a b : Value), isTri (cypherEquals a b)
     cases b <;> simp only [cypherEquals, isTri]
     rename_i ys
     by_cases h : (xs.length != ys.length) = true
-    · simp [h, isTri]
+    · simp [h]
     · simp only [h, Bool.false_eq_true, if_false]; exact seq_tri xs ys
   | .map xs, b => by
     cases b <;> simp only [cypherEquals, isTri]
     rename_i ys
     by_cases h : (xs.length != ys.length) = true
-    · simp [h, isTri]
+    · simp [h]
     · simp only [h, Bool.false_eq_true, if_false]; exact map_tri xs ys
   | .null, b => by cases b <;> simp [cypherEquals, isTri]
   | .bool _, b => by cases b <;> simp [cypherEquals, isTri]
